@@ -111,7 +111,7 @@ def run(ctx, model_ok):
                     'impl': res[0][min(300, len(files[0][1]))]}]
     # the command line: --count prints the first `count` lines of what the API yields (c06_count), on whole and on cut dumps
     from . import cli_common
-    ncli = 24 if ctx.quick() else 400
+    ncli = 80 if ctx.quick() else 600
     cli_common.run(ctx, ['traces', 'kevents', 'callstacks', 'logs'], ncli)
     cli_common.run(ctx, ['traces', 'kevents', 'callstacks', 'logs'], ncli, truncated=True)
     if model_ok:
